@@ -105,7 +105,10 @@ EnvAcceptF(F, prev, d, gA, gR, out) ==
       tol   == DAdd(DMulInt(4, U), DScale2(DAbs(DMul(g, DSub(prev, d))), -22))
   IN /\ DLe(DAbs(DSub(out, exact)), tol)                          \* the recurrence
      /\ DLe(DSub(DMin(prev, d), U), out) /\ DLe(out, DAdd(DMax(prev, d), U))   \* no overshoot
-     /\ (DIsZero(g) => DEq(out, d))                               \* time 0: the detected value itself
+     \* time 0: the detected value itself -- up to the same single unit of float rounding as the no-overshoot
+     \* clause (an algebraically equivalent form such as prev + (1 - g)(d - prev) rounds d - prev once; a gain
+     \* that is not 0 at time 0 is off by g |prev - d|, orders of magnitude more)
+     /\ (DIsZero(g) => DLe(DAbs(DSub(out, d)), U))
 \* Integer output (peak detection on integer frames): the scaled difference passes through the
 \* float companion and is truncated back: within 2 LSB of the recurrence, never outside [prev, d]
 EnvAcceptI(prev, d, gA, gR, out) ==
